@@ -233,12 +233,8 @@ Proof.
       * destruct Im as [Im|Im]; [ left; exact Im | right; right; exact Im ].
       * intros x [<-|[<-|Hx]]; [ apply M; left; reflexivity | | apply M; right; exact Hx ].
         destruct m; simpl; auto.
-        destruct Im as [Im|Im].
-        { subst cur. discriminate. }
-        { exfalso. clear - Im Hl. induction l as [|y l IHl]; simpl in *; auto.
-          apply andb_prop in Hl. destruct Hl as [Hy Hl]. destruct Im as [->|Im]; [ discriminate | auto ]. }
-    + exists XNegInf. simpl. split; auto. split; [ right; left; reflexivity | ].
-      intros x _. simpl. exact Logic.I.
+    + exists XNegInf. simpl. split; [ reflexivity | ].
+      split; [ right; left; reflexivity | intros x _; simpl; exact Logic.I ].
 Qed.
 
 Theorem min_fold_sound l : l <> [] -> forallb x_real l = true ->
@@ -265,7 +261,7 @@ Qed.
 (* ------------------------------------------------------------------ levi_civita *)
 (* schoolbook definition on index lists: 0 when an index repeats, otherwise (-1)^inversions *)
 Fixpoint count_gt (x : Z) (l : list Z) : nat :=
-  match l with [] => O | y :: r => ((if y <? x then 1 else 0) + count_gt x r)%nat end.
+  match l with [] => O | y :: r => ((if (y <? x)%Z then 1 else 0) + count_gt x r)%nat end.
 Fixpoint inversions (l : list Z) : nat :=
   match l with [] => O | x :: r => (count_gt x r + inversions r)%nat end.
 Fixpoint has_dup_z (l : list Z) : bool :=
